@@ -53,7 +53,8 @@ fn script_modes(script: &[Step]) -> Vec<Mode> {
         let m = match s {
             Step::A1 | Step::A2 | Step::Fnc1 => Mode::Ascii,
             Step::Seg(m, _) | Step::FinalC40Exact(m, _) | Step::FinalC40Pad(m, _) | Step::FinalC40UnlatchAscii(m, _) | Step::FinalC40ImplicitAscii(m, _) => *m,
-            Step::FinalX12Exact(_) | Step::FinalX12ImplicitAscii(_) => Mode::X12,
+            Step::FinalC40ImplicitPair(m, _) => *m,
+            Step::FinalX12Exact(_) | Step::FinalX12ImplicitAscii(_) | Step::FinalX12ImplicitPair(_) => Mode::X12,
             Step::FinalEdifactExact(_) | Step::FinalEdifactAscii(..) => Mode::Edifact,
             Step::FinalBase256ToEnd(_) => Mode::Base256,
         };
@@ -137,6 +138,8 @@ fn witness_paths(script: &[Step], n: usize) -> Vec<Vec<(usize, EncodationType)>>
             Step::FinalC40UnlatchAscii(m, l) | Step::FinalC40ImplicitAscii(m, l) => (*m, *l, 1),
             Step::FinalX12Exact(l) => (Mode::X12, *l, 0),
             Step::FinalX12ImplicitAscii(l) => (Mode::X12, *l, 1),
+            Step::FinalC40ImplicitPair(m, l) => (*m, *l, 2),
+            Step::FinalX12ImplicitPair(l) => (Mode::X12, *l, 2),
             Step::FinalEdifactExact(l) => (Mode::Edifact, *l, 0),
             Step::FinalEdifactAscii(l, t) => (Mode::Edifact, *l + *t, *t),
             Step::FinalBase256ToEnd(l) => (Mode::Base256, *l, 0),
